@@ -156,6 +156,24 @@ def reachable_files(prop=None):
     return sorted(_module_path(m) for m in seen)
 
 
+def generated_deps(prop):
+    """names of the Generated/*.lean files the property's registered theorem modules import (transitively)"""
+    reg = json.load(open(THEOREMS))
+    seen, todo = set(), list((reg.get(prop) or {}).get("modules") or [])
+    while todo:
+        m = todo.pop()
+        if m in seen:
+            continue
+        p = _module_path(m)
+        if not os.path.exists(p):
+            continue
+        seen.add(m)
+        for mm in re.findall(r"^\s*import\s+([A-Za-z0-9_.]+)", open(p).read(), re.M):
+            if mm.startswith("CnvVerif"):
+                todo.append(mm)
+    return sorted(m.split(".")[-1] + ".lean" for m in seen if m.startswith("CnvVerif.Generated."))
+
+
 def grep_forbidden(prop=None):
     hits = []
     for p in reachable_files(prop):
@@ -445,7 +463,14 @@ def run_check(prop, tier, seed, replay=None):
         n_obl, n_dis, adetails, build_ok, alog = audit(prop)
     else:
         n_obl, n_dis, adetails, build_ok, alog = (len(theorems_for(prop)["theorems"]), 0, {}, False, model_broken)
-    proof_broken = (n_dis != n_obl) or not build_ok or fallback_note is not None
+    # the regenerated model did not build and the committed baseline was restored: that breaks THIS property's
+    # obligations only if its theorems depend on one of the generated files that changed
+    fallback_hits = []
+    if fallback_note is not None:
+        deps = set(generated_deps(prop))
+        fallback_hits = sorted(deps & set(tinfo.get("changed_files") or []))
+        fallback_note["generated_files_this_property_depends_on"] = fallback_hits
+    proof_broken = (n_dis != n_obl) or not build_ok or bool(fallback_hits)
     if proof_broken and not (tinfo.get("changed") or tinfo.get("error")):
         # proofs are broken although the generated files are what was committed: framework bug
         raise Infra("registered theorems do not check on unchanged Generated files:\n"
